@@ -1,5 +1,6 @@
 import TV.Proofs.SliceOps
 import TV.Monitor.SliceOps
+import TV.Proofs.MonitorSliceOps
 /-!
 # C12 — sliceOps functions equal their list and set specifications on all inputs
 
@@ -89,7 +90,32 @@ example : (filterInPlace ({ arr := [1, 2, 3, 4, 9], len := 4 } : Slice Nat) (· 
 example : intersection [[1, 1, 2], [2, 1, 1, 3], [1, 2]] = [1, 2] := by decide
 example : disjoin [[1, 1, 2], [2, 3], [4, 3, 5]] = [1, 4, 5] := by decide
 
-/-! ### the model passes the monitor the driver applies to the implementation -/
+/-! ### the monitors the driver applies to the *implementation's* outputs decide exactly these conclusions
+
+An output passes the monitor iff it is duplicate-free and set-equal to the mathematical operation — so a
+`MONFAIL` on the implementation is a counterexample to the property, and no output that satisfies the
+property is ever rejected. -/
+
+theorem C12_monitor_distinct (s out : List α) :
+    monDistinct s out = true ↔ out.Nodup ∧ ∀ x, x ∈ out ↔ x ∈ s := monDistinct_iff s out
+theorem C12_monitor_union (ss : List (List α)) (out : List α) :
+    monUnion ss out = true ↔ out.Nodup ∧ ∀ x, x ∈ out ↔ ∃ s ∈ ss, x ∈ s := monUnion_iff ss out
+theorem C12_monitor_intersection (ss : List (List α)) (out : List α) :
+    monIntersection ss out = true ↔ out.Nodup ∧ ∀ x, x ∈ out ↔ ss ≠ [] ∧ ∀ s ∈ ss, x ∈ s := monIntersection_iff ss out
+theorem C12_monitor_difference (s1 s2 out : List α) :
+    monDifference s1 s2 out = true ↔ out.Nodup ∧ ∀ x, x ∈ out ↔ x ∈ s1 ∧ x ∉ s2 := monDifference_iff s1 s2 out
+theorem C12_monitor_disjoin (ss : List (List α)) (out : List α) :
+    monDisjoin ss out = true ↔ out.Nodup ∧ ∀ x, x ∈ out ↔ occ ss x = 1 := monDisjoin_iff ss out
+
+/-- hence the model passes every monitor, for all inputs. -/
+theorem C12_model_passes_monitors (s s2 : List α) (ss : List (List α)) :
+    monDistinct s (distinct s) = true ∧ monUnion ss (union ss) = true ∧
+    monIntersection ss (intersection ss) = true ∧ monDifference s s2 (difference s s2) = true ∧
+    monDisjoin ss (disjoin ss) = true :=
+  ⟨(monDistinct_iff _ _).2 (C12_distinct s), (monUnion_iff _ _).2 (C12_union ss),
+   (monIntersection_iff _ _).2 (C12_intersection ss), (monDifference_iff _ _ _).2 (C12_difference s s2),
+   (monDisjoin_iff _ _).2 (C12_disjoin ss)⟩
+
 example : monIntersection [[1, 1, 2], [2, 1, 1, 3]] (intersection [[1, 1, 2], [2, 1, 1, 3]]) = true := by decide
 
 /-! ### witnesses: the pinned tree's variants violate the property -/
